@@ -26,6 +26,7 @@ type gen14 struct {
 	cur   int // nonterminal being generated
 	stats map[string]int
 	tm    bool
+	la    []int // lookahead flags (declared with %lookahead, never listed in a nonterminal's parameters)
 }
 
 func (g *gen14) term() *xe { return xref(g.lo + g.rng.Intn(g.T-g.lo)) }
@@ -70,11 +71,17 @@ func (g *gen14) ref() *xe {
 		}
 		e.args = append(e.args, a)
 	}
+	for _, v := range g.la {
+		if g.rng.Intn(100) < 30 {
+			g.stats["lookahead-flag-argument"]++
+			e.args = append(e.args, xarg{param: v, value: []string{"true", "false"}[g.rng.Intn(2)]})
+		}
+	}
 	return e
 }
 
 func (g *gen14) pred(depth int) *xpred {
-	own := g.m.nonterms[g.cur].params
+	own := append(append([]int{}, g.m.nonterms[g.cur].params...), g.la...)
 	if g.tm && depth > 0 {
 		// the .tm syntax has no parentheses: a disjunction of conjunctions of primaries
 		prim := func() *xpred {
@@ -137,7 +144,7 @@ func (g *gen14) part(depth int) *xe {
 		var alts []*xe
 		for i := 0; i < n; i++ {
 			a := g.seq(depth-1, 2)
-			if len(g.m.nonterms[g.cur].params) > 0 && g.rng.Intn(4) == 0 {
+			if len(g.m.nonterms[g.cur].params)+len(g.la) > 0 && g.rng.Intn(4) == 0 {
 				g.stats["nested-conditional"]++
 				a = &xe{kind: syntax.Conditional, pred: g.pred(1), sub: []*xe{a}}
 			}
@@ -182,6 +189,11 @@ func genModel14(rng *rand.Rand, stats map[string]int, tm bool) *xmodel {
 		}
 		m.params = append(m.params, p)
 	}
+	if tm && rng.Intn(2) == 0 {
+		stats["models-with-lookahead-flag"]++
+		m.params = append(m.params, xparam{name: "V", def: "false", la: true})
+		g.la = []int{np}
+	}
 	g.N = 2 + rng.Intn(4)
 	for i := 0; i < g.N; i++ {
 		nt := xnonterm{name: fmt.Sprintf("N%d", i)}
@@ -204,7 +216,7 @@ func genModel14(rng *rand.Rand, stats map[string]int, tm bool) *xmodel {
 		var rules []*xe
 		for k := 0; k < n; k++ {
 			r := g.seq(depth, 3)
-			if len(m.nonterms[i].params) > 0 && rng.Intn(100) < 45 {
+			if len(m.nonterms[i].params)+len(g.la) > 0 && rng.Intn(100) < 45 {
 				stats["conditional-rule"]++
 				r = &xe{kind: syntax.Conditional, pred: g.pred(2), sub: []*xe{r}}
 			}
@@ -217,7 +229,122 @@ func genModel14(rng *rand.Rand, stats map[string]int, tm bool) *xmodel {
 		}
 	}
 	m.inputs = []xinput{{nt: 0}}
+	if len(g.la) > 0 && rng.Intn(4) != 0 {
+		// the rest keeps fully random uses of the flag: mostly rejected by PropagateLookaheads, which is the point
+		g.laFamily()
+	}
 	return m
+}
+
+// laFamily rewrites N0..N2 into a shape in which a lookahead flag can be propagated: N2 tests the flag in
+// rules that start with a terminal, N1 reaches N2 through an entry point (first symbol), N0 (the input) and
+// the other nonterminals mention N1/N2 with and without explicit flag arguments at arbitrary positions.
+func (g *gen14) laFamily() {
+	m, v := g.m, g.la[0]
+	for len(m.nonterms) < 3 {
+		m.nonterms = append(m.nonterms, xnonterm{name: fmt.Sprintf("N%d", len(m.nonterms)), value: g.term()})
+		g.N++
+	}
+	m.nonterms[1].params, m.nonterms[2].params = nil, nil
+	flagRef := func(target int) *xe {
+		e := xref(g.T + target)
+		switch g.rng.Intn(3) {
+		case 0:
+			e.args = []xarg{{param: v, value: "true"}}
+		case 1:
+			e.args = []xarg{{param: v, value: "false"}}
+		}
+		return e
+	}
+	tail := func() []*xe {
+		var parts []*xe
+		for i, n := 0, g.rng.Intn(3); i < n; i++ {
+			switch g.rng.Intn(5) {
+			case 0:
+				parts = append(parts, flagRef(1))
+			case 1:
+				parts = append(parts, flagRef(2))
+			case 2:
+				parts = append(parts, xk(syntax.Optional, g.term()))
+			default:
+				parts = append(parts, g.term())
+			}
+		}
+		return parts
+	}
+	mk := func(first *xe) *xe {
+		parts := append([]*xe{first}, tail()...)
+		if len(parts) == 1 {
+			return parts[0]
+		}
+		return xk(syntax.Sequence, parts...)
+	}
+	cond := func(value string, neg bool, body *xe) *xe {
+		p := &xpred{op: 3, param: v, value: value}
+		if neg {
+			p = &xpred{op: 2, sub: []*xpred{p}}
+		}
+		return &xe{kind: syntax.Conditional, pred: p, sub: []*xe{body}}
+	}
+	// N2: the user of the flag
+	m.nonterms[2].value = xk(syntax.Choice, cond("true", false, mk(g.term())), cond("true", true, mk(g.term())), mk(g.term()))
+	// N1: reaches N2 at the start of a rule (inherits), or gives the flag explicitly
+	n1 := []*xe{mk(xref(g.T + 2)), mk(g.term())}
+	if g.rng.Intn(2) == 0 {
+		n1 = append(n1, mk(flagRef(2)))
+	}
+	if g.rng.Intn(3) == 0 {
+		n1 = append(n1, cond("true", g.rng.Intn(2) == 0, mk(g.term())))
+	}
+	m.nonterms[1].value = xk(syntax.Choice, n1...)
+	// N0: the input
+	var n0 []*xe
+	for i, n := 0, 1+g.rng.Intn(3); i < n; i++ {
+		switch g.rng.Intn(3) {
+		case 0:
+			n0 = append(n0, mk(flagRef(1)))
+		case 1:
+			n0 = append(n0, mk(flagRef(2)))
+		default:
+			n0 = append(n0, mk(g.term()))
+		}
+	}
+	n0 = append(n0, mk(&xe{kind: syntax.Reference, sym: g.T + 1, args: []xarg{{param: v, value: "true"}}}))
+	m.nonterms[0].value = xk(syntax.Choice, n0...)
+	// the remaining nonterminals keep their random bodies but do not test or pass the flag
+	for i := 3; i < len(m.nonterms); i++ {
+		stripFlag(m.nonterms[i].value, v)
+	}
+}
+
+func stripFlag(e *xe, v int) {
+	if e.kind == syntax.Reference {
+		var keep []xarg
+		for _, a := range e.args {
+			if a.param != v {
+				keep = append(keep, a)
+			}
+		}
+		e.args = keep
+	}
+	for _, s := range e.sub {
+		stripFlag(s, v)
+	}
+	if e.kind == syntax.Conditional && predMentions(e.pred, v) {
+		*e = *e.sub[0] // the rule without its condition
+	}
+}
+
+func predMentions(p *xpred, v int) bool {
+	if p.op == 3 && p.param == v {
+		return true
+	}
+	for _, s := range p.sub {
+		if predMentions(s, v) {
+			return true
+		}
+	}
+	return false
 }
 
 func c14Instantiate(rng *rand.Rand, n int, _ []string) {
@@ -354,7 +481,9 @@ func c14Tm(rng *rand.Rand, n int, _ []string) {
 		}
 		sb.WriteString("invalid_token:\n\n:: parser\n\n")
 		for _, p := range m.params {
-			if p.def != "" {
+			if p.la {
+				fmt.Fprintf(&sb, "%%lookahead flag %s = %s;\n", p.name, p.def)
+			} else if p.def != "" {
 				fmt.Fprintf(&sb, "%%flag %s = %s;\n", p.name, p.def)
 			} else {
 				fmt.Fprintf(&sb, "%%flag %s;\n", p.name)
@@ -386,6 +515,9 @@ func c14Tm(rng *rand.Rand, n int, _ []string) {
 			sb.WriteString(";\n\n")
 		}
 		text := sb.String()
+		if f := os.Getenv("VERIF_DUMP"); f != "" {
+			os.WriteFile(f, []byte(text), 0o644) // the last grammar, for reproducing a crash of the implementation
+		}
 		gr, err := compiler.Compile(context.Background(), "g14.tm", text, compiler.Params{CheckOnly: true})
 		if gr == nil || gr.Parser == nil || len(gr.Parser.Rules) == 0 {
 			stats["tm-not-compiled"]++
